@@ -81,11 +81,26 @@ def program(L: str, data: list) -> dict:
         ["const", lit],
         ["fl", {"fn": "fill_null", "args": [s, lit]}],
     ]
+    # results of string functions as operands of further string functions: the statement must keep treating them as
+    # strings (concatenation is `||`, not `+`), whatever the literal looks like
+    # (str.strip / str.lower are not used here: SQLite's TRIM removes blanks only and its LOWER is ASCII-only, finding D74)
+    strip, lower = {"fn": "str_replace_all", "args": [s, {"lit": "a"}, {"lit": "b"}]}, {"fn": "str_replace_all", "args": [s, {"lit": "b"}, {"lit": "a"}]}
+    cols += [["cat3", {"fn": "add", "args": [{"fn": "add", "args": [s, lit]}, s]}],
+             ["cat_fns", {"fn": "add", "args": [strip, lower]}],
+             ["cat_fill", {"fn": "add", "args": [{"fn": "fill_null", "args": [s, lit]}, {"fn": "fill_null", "args": [s, {"lit": "-"}]}]}],
+             ["cat_case", {"fn": "add", "args": [{"case": [[{"fn": "equal", "args": [s, lit]}, lit]], "default": s}, lit]}]]
+    second = [["cat_cols", {"fn": "add", "args": [{"c": "cat"}, {"c": "fl"}]}]]
     if L:
-        cols.append(["rep", {"fn": "str_replace_all", "args": [s, lit, {"lit": "<>"}]}])
+        rep = {"fn": "str_replace_all", "args": [s, lit, {"lit": "<>"}]}
+        rep2 = {"fn": "str_replace_all", "args": [s, {"lit": "a"}, lit]}
+        cols += [["rep", rep], ["rep_rep", {"fn": "add", "args": [rep, rep2]}], ["rep_lit", {"fn": "add", "args": [rep2, lit]}],
+                 ["rep_of_cat", {"fn": "str_replace_all", "args": [{"fn": "add", "args": [s, lit]}, lit, {"lit": "#"}]}],
+                 ["rep_fn", {"fn": "add", "args": [rep, strip]}]]
+        second.append(["rep_twice", {"fn": "add", "args": [{"c": "rep"}, {"c": "rep"}]}])
     return dict(
         tables=[dict(name="g", cols=[dict(name="id", dtype="int64", vals=list(range(len(data)))), dict(name="s", dtype="string", vals=data)])],
-        stmts=[dict(id="t0", op="source", table="g"), dict(id="t1", op="mutate", src="t0", cols=cols),
+        stmts=[dict(id="t0", op="source", table="g"), dict(id="t1a", op="mutate", src="t0", cols=cols),
+               dict(id="t1", op="mutate", src="t1a", cols=second),
                dict(id="t2", op="filter", src="t1", preds=[{"fn": "bool_or", "args": [{"fn": "not_equal", "args": [s, lit]}, {"lit": True}]}]),
                dict(id="t3", op="arrange", src="t2", by=[{"c": "id"}]), dict(id="x", op="export", src="t3", ordered=True)])
 
